@@ -1083,9 +1083,10 @@ class FDI:
                                        ('call', name, tuple(self.xof(st, a) for a in args))))
 
     def extern_value(self, st, name, args, dest_ty, line=None, fn=None, unique=False):
-        """result of a call that is not interpreted, issued by a model: effect entry if designated (or `unique`: the
-        call is not a pure function of its arguments, e.g. Iterator::next), atom otherwise"""
-        for r in list(self.effects) + ([re.compile('.')] if unique else []):
+        """result of a call that is not interpreted, issued by a model: effect entry if designated, atom otherwise.  `unique`: the
+        call is not a pure function of its arguments (Iterator::next): if the rule did not designate it, the result still gets a
+        name of its own (`name#u<k>`) but no effect entry (the rule's effect list stays what the rule asked for)"""
+        for r in self.effects:
             if r.search(name):
                 st.effects.append((name, [self.describe(st, a) for a in args], {'line': line, 'fn': fn, 'x': [self.xof(st, a) for a in args],
                                                                                 'n': len(st.effects) + 1, 'ci': len(st.cond)}))
@@ -1093,6 +1094,9 @@ class FDI:
                 return Sym(f"{name}#{k}", dest_ty, ('eff', name, k, tuple(self.xof(st, a) for a in args)))
         if any(isinstance(a, Unknown) for a in args):
             return Unknown(f"{name} on unknown")
+        if unique:
+            k = 'u' + st.fresh('uniq').split('#')[1]
+            return Sym(f"{name}#{k}", dest_ty, ('eff', name, k, tuple(self.xof(st, a) for a in args)))
         return Sym(f"{name}({','.join(self.describe(st, a) for a in args)})", dest_ty, ('call', name, tuple(self.xof(st, a) for a in args)))
 
     def havoc_mut_args(self, st, fr, t, args):
